@@ -10,7 +10,7 @@
 (*   - C14: the outputs equal the declarative Annex B semantics of          *)
 (*     AnnexB.tla; C07: "first parameter sets"; C12: no panic.              *)
 (***************************************************************************)
-EXTENDS AnnexB, Json, IOUtils, TLC
+EXTENDS AnnexB, Av1Seq, Vp9Hdr, OpusPkt, Json, IOUtils, TLC
 
 Rec == ndJsonDeserialize(IOEnv.TRACE)
 
@@ -59,6 +59,33 @@ FnSigs(e) ==
              ELSE IF e.hevc.some /\ (e.hevc.vps # H265Vps(d) \/ e.hevc.sps # H265Sps(d) \/ e.hevc.pps # H265Pps(d))
                   THEN {FSig("C07", "FirstParamSets", "extract_hevc_config", "not-the-first")} ELSE {})
           ELSE {})
+    \cup (IF "av1" \in DOMAIN e THEN
+            LET s == IF d = << >> THEN [found |-> FALSE] ELSE FirstSeqObu(d, 1)
+                r == Av1Parsed(d) IN
+            IF ~s.found THEN (IF e.av1.some THEN {FSig("C07", "Av1Extract", "extract_av1_config", "config-without-sequence-header")} ELSE {})
+            ELSE IF r.ok /\ r.profile <= 2 /\ TrailingOk(Av1SeqPayload(d), r.endbit) THEN
+                 (IF ~e.av1.some THEN (IF r.mono = 1 THEN {FSig("C07", "Av1Extract", "extract_av1_config", "monochrome-header-rejected")}
+                                       ELSE {FSig("C07", "Av1Extract", "extract_av1_config", "valid-header-rejected")})
+                  ELSE (IF e.av1.profile # r.profile \/ e.av1.level # r.level \/ e.av1.tier # r.tier \/ e.av1.hb # r.hb \/ e.av1.tb # r.tb
+                           \/ e.av1.mono # r.mono \/ e.av1.sx # r.sx \/ e.av1.sy # r.sy
+                        THEN {FSig("C07", "Av1Extract", "extract_av1_config", "fields")} ELSE {})
+                       \cup (IF e.av1.csp # r.csp THEN {FSig("C07", "Av1Extract", "extract_av1_config",
+                                   IF r.mono = 1 THEN "chroma-sample-position-of-monochrome" ELSE "chroma-sample-position")} ELSE {})
+                       \cup (IF e.av1.obu # Av1SeqObuBytes(d) THEN {FSig("C07", "Av1Extract", "extract_av1_config", "obu-bytes")} ELSE {}))
+            ELSE {}          \* truncated / malformed trailing bits / reserved profile: not judged
+          ELSE {})
+    \cup (IF "vp9" \in DOMAIN e THEN
+            IF e.vp9.some # Vp9HasConfig(d) THEN {FSig("C07", "Vp9Extract", "extract_vp9_config", IF e.vp9.some THEN "spurious" ELSE "missed")}
+            ELSE IF e.vp9.some THEN
+                 LET f == Vp9Fields(d) IN
+                 IF e.vp9.profile # f.profile \/ e.vp9.depth # f.depth \/ e.vp9.cs # f.cs \/ e.vp9.tf # f.tf \/ e.vp9.mc # f.mc \/ e.vp9.fr # f.fr
+                 THEN {FSig("C07", "Vp9Extract", "extract_vp9_config", "fields")} ELSE {}
+            ELSE {}
+          ELSE {})
+    \cup (IF "vp9key" \in DOMAIN e /\ (e.vp9key = "key") # Vp9IsKey(d) THEN {FSig("C04", "KeyDetect", "is_vp9_keyframe", "differs")} ELSE {})
+    \cup (IF "opusvalid" \in DOMAIN e /\ e.opusvalid # ValidOpus(d) THEN {FSig("C04", "OpusValid", "is_valid_opus_packet", IF e.opusvalid THEN "accepts-invalid" ELSE "rejects-valid")} ELSE {})
+    \cup (IF "opussamples" \in DOMAIN e /\ e.opussamples # (IF ValidOpus(d) THEN PacketSamples(d) ELSE -1)
+          THEN {FSig("C04", "OpusValid", "opus_packet_samples", "value")} ELSE {})
     \cup (IF "key264" \in DOMAIN e /\ e.key264 # H264HasIdr(d) THEN {FSig("C04", "KeyDetect", "is_h264_keyframe", "differs")} ELSE {})
     \cup { FSig("C12", "Total", e.panics[i].f, ToString(<< "panic", e.panics[i].msg >>)) : i \in 1..Len(e.panics) }
 
